@@ -106,12 +106,13 @@ class Arm:
                 return self.scalar(e.args[0], depth + 1)
             if f in ("get_from_nodes_corrected", "get_to_nodes_corrected"):
                 return Poly.sym("len", "branch_pit")
-            if f in ("np.where",) and len(e.args) == 1:
-                # np.where(cond)[0]: number of true entries
+            if f in ("np.where", "np.flatnonzero", "np.nonzero", "numpy.where", "numpy.flatnonzero", "numpy.nonzero") and len(e.args) == 1:
+                # np.where(cond)[0] / np.flatnonzero(cond): number of true entries
                 return Poly.sym("count", self.canon(e.args[0]))
         if isinstance(e, ast.Subscript):
             sl = e.slice
-            if isinstance(e.value, ast.Call) and U(e.value.func) == "np.where" and isinstance(sl, ast.Constant):
+            if isinstance(e.value, ast.Call) and U(e.value.func) in ("np.where", "np.nonzero", "numpy.where", "numpy.nonzero") \
+                    and isinstance(sl, ast.Constant):
                 return Poly.sym("count", self.canon(e.value.args[0]))
             if isinstance(sl, ast.Tuple) and len(sl.elts) == 2:
                 return self._rows_len(e.value, sl.elts[0], depth)
@@ -146,6 +147,8 @@ class Arm:
             return True
         if isinstance(e, ast.BinOp) and isinstance(e.op, (ast.BitAnd, ast.BitOr)):
             return True
+        if isinstance(e, ast.Subscript) and not isinstance(e.slice, (ast.Tuple, ast.Slice)) and self.is_mask(e.value):
+            return True         # a mask gathered by an index array is a mask (of the length of the index array)
         return False
 
     def canon(self, e):
@@ -175,8 +178,10 @@ class Arm:
             f = U(e.func)
             if f == "len":
                 return self.length_of(e.args[0], depth + 1)
-            if f in ("np.sum", "numpy.sum"):
+            if f in ("np.sum", "numpy.sum") and len(e.args) == 1:
                 return Poly.sym("count", self.canon(e.args[0]))
+            if isinstance(e.func, ast.Attribute) and e.func.attr == "sum" and not e.args and not e.keywords:
+                return Poly.sym("count", self.canon(e.func.value))       # mask.sum()
         if isinstance(e, ast.Subscript) and isinstance(e.value, ast.Attribute) and e.value.attr == "shape" \
                 and isinstance(e.slice, ast.Constant) and e.slice.value == 0:
             return self.length_of(e.value.value, depth + 1)
